@@ -64,6 +64,8 @@ FIRST_MISSED = {
     "C19-f": "missed at first; unquoted column names that are words of the DDL grammar (key, index, …) added",
     "C06-g": "missed at first (random doubles have 17-digit mantissas; the fixed list had no negative exponent-only repr); short mantissas × exponents of both signs added",
     "C12-g": "missed at first; statements in which one node has several parents (simple CASE over a call) × swaps / chains / rotations of the operation names added, shared Call objects in the scrub correspondence",
+    "C06-h": "missed at first (the exponent spellings tried were e, E+, e-: no upper-case E with a minus sign and no decimal point), and the regex tie let it through: the string corpus of `canon_pattern` had no such number; every letter case x sign behind every mantissa form added, corpus made dense over the numeric alphabet",
+    "C14-h": "missed at first (the token generator writes no EXPLAIN option list); 14 hand-written statement kinds added to the ill-formed-edit stream",
     "C18-g": "first only as a broken obligation (`dialect_diff_confined`); suffix operators (field access on calls / brackets, `:`, `::`, OVER, FILTER) added to the operator probe",
 }
 rows = []
